@@ -1,2 +1,176 @@
-/- Model driver for C15 (line protocol). Stub until the property's model lands. -/
-def main : IO Unit := pure ()
+/-
+  Model driver for C15 (line protocol, see harness/c15_main.c). Imports Model only.
+
+    code <fid> <enc> <now_pos> <prev_mask> <prev_pos> <hex>          -> "<processed> <prev_mask> <prev_pos> <hex>"
+    codeseq <fid> <enc> <now_pos> <hex> <len>...                     -> "<p:mask:pos>,... <hex>"
+    oneshot <fid> <enc> <start_offset> <hex>                         -> "<processed> <hex>" | "none"
+    stream <fid> <enc> <next> <start_offset> <hex> <in:out:act>...   -> "init=<ret> calls=<ret:consumed:produced>,... out=<hex>"
+    delta <enc> <dist> <hex> <len>...                                -> "<hex>"   (the static loops, chunk by chunk)
+    dstream <enc> <next> <dist> <hex> <in:out:act>...                -> like stream
+    deltax <enc> <dist> <hex>                                        -> "<hex>"   (large inputs, processed in 4 KiB pieces)
+  fid: x86 powerpc ia64 arm armthumb sparc arm64 riscv;  enc: 1 = encoder, 0 = decoder;  next: 0 = NULL, 1 = pass-through;
+  act: 0 RUN, 1 SYNC_FLUSH, 2 FULL_FLUSH, 3 FINISH.
+-/
+import XzVerif.Model.Proto
+import XzVerif.Model.Simple
+open XzVerif XzVerif.Proto XzVerif.Bcj XzVerif.Simple
+
+def hv (c : UInt8) : Option UInt8 :=
+  if 48 ≤ c && c ≤ 57 then some (c - 48)
+  else if 97 ≤ c && c ≤ 102 then some (c - 87)
+  else if 65 ≤ c && c ≤ 70 then some (c - 55)
+  else none
+
+/-- tail-recursive hex parser ("-" = empty) -/
+def parseHex (s : String) : Option (List UInt8) :=
+  if s == "-" then some []
+  else
+    let u := s.toUTF8
+    if u.size % 2 != 0 then none
+    else
+      let rec go : Nat → List UInt8 → Option (List UInt8)
+        | 0, acc => some acc
+        | i + 1, acc =>
+          match hv u[2 * i]!, hv u[2 * i + 1]! with
+          | some a, some b => go i ((a * 16 + b) :: acc)
+          | _, _ => none
+      go (u.size / 2) []
+
+def hexChar (n : UInt8) : UInt8 := if n < 10 then 48 + n else 87 + n
+
+def pushHex (acc : ByteArray) (bs : List UInt8) : ByteArray :=
+  bs.foldl (fun a b => (a.push (hexChar (b / 16))).push (hexChar (b % 16))) acc
+
+def strOfAscii (a : ByteArray) : String :=
+  if a.size == 0 then "-" else String.fromUTF8! a
+
+def toHex (bs : List UInt8) : String := strOfAscii (pushHex ByteArray.empty bs)
+
+def fidOf : String → Option FilterId
+  | "x86" => some .x86 | "powerpc" => some .powerpc | "ia64" => some .ia64 | "arm" => some .arm
+  | "armthumb" => some .armthumb | "sparc" => some .sparc | "arm64" => some .arm64 | "riscv" => some .riscv
+  | _ => none
+
+def actOf : Nat → Option Action
+  | 0 => some .run | 1 => some .syncFlush | 2 => some .fullFlush | 3 => some .finish | _ => none
+
+def nextOf : String → Option Next
+  | "0" => some .null | "1" => some .passthrough | _ => none
+
+def boolOf : String → Option Bool
+  | "0" => some false | "1" => some true | _ => none
+
+structure Slice where
+  inLen : Nat
+  outCap : Nat
+  act : Action
+
+def sliceOf (s : String) : Option Slice :=
+  match s.splitOn ":" with
+  | [a, b, c] =>
+    match a.toNat?, b.toNat?, c.toNat? with
+    | some a, some b, some c => (actOf c).map fun act => ⟨a, b, act⟩
+    | _, _, _ => none
+  | _ => none
+
+/-- The calling loop shared with the harness: the given slices, then up to 8 draining calls
+    (all remaining input, 4096 bytes of output space, LZMA_FINISH) while there is progress. Stops at the first ret ≠ LZMA_OK. -/
+def runStream {σ : Type} (code : σ → List UInt8 → Nat → Action → σ × Resp) (s0 : σ) (data : List UInt8)
+    (slices : List Slice) : String := Id.run do
+  let mut s := s0
+  let mut rest := data
+  let mut calls : Array String := #[]
+  let mut out := ByteArray.empty
+  let mut stopped := false
+  for sl in slices do
+    if !stopped then
+      let (s', r) := code s (rest.take sl.inLen) sl.outCap sl.act
+      s := s'
+      rest := rest.drop r.consumed
+      out := pushHex out r.out
+      calls := calls.push s!"{r.ret}:{r.consumed}:{r.out.length}"
+      if r.ret != 0 then stopped := true
+  for _ in [0:8] do
+    if !stopped then
+      let (s', r) := code s rest 4096 Action.finish
+      s := s'
+      rest := rest.drop r.consumed
+      out := pushHex out r.out
+      calls := calls.push s!"{r.ret}:{r.consumed}:{r.out.length}"
+      if r.ret != 0 || (r.consumed == 0 && r.out.length == 0) then stopped := true
+  return s!"calls={",".intercalate calls.toList} out={strOfAscii out}"
+
+def step (_ : Unit) (ws : List String) : Unit × String :=
+  match ws with
+  | ["code", fid, enc, np, pm, pp, hx] =>
+    match fidOf fid, boolOf enc, np.toNat?, pm.toNat?, pp.toNat?, parseHex hx with
+    | some f, some e, some np, some pm, some pp, some bs =>
+      let (o, n, st) := filterCode f e ⟨BitVec.ofNat 32 pm, BitVec.ofNat 32 pp⟩ (BitVec.ofNat 32 np) bs
+      ((), s!"{n} {st.prevMask.toNat} {st.prevPos.toNat} {toHex o}")
+    | _, _, _, _, _, _ => ((), "bad-op")
+  | "codeseq" :: fid :: enc :: np :: hx :: lens =>
+    match fidOf fid, boolOf enc, np.toNat?, parseHex hx, lens.mapM String.toNat? with
+    | some f, some e, some np, some bs, some lens => Id.run do
+      let mut st := X86State.init
+      let mut pos := BitVec.ofNat 32 np
+      let mut done : ByteArray := ByteArray.empty
+      let mut rest := bs
+      let mut calls : Array String := #[]
+      for len in lens do
+        let (o, n, st') := filterCode f e st pos (rest.take len)
+        st := st'
+        pos := pos + BitVec.ofNat 32 n
+        done := pushHex done (o.take n)
+        rest := o.drop n ++ rest.drop len
+        calls := calls.push s!"{n}:{st.prevMask.toNat}:{st.prevPos.toNat}"
+      return ((), s!"{",".intercalate calls.toList} {strOfAscii (pushHex done rest)}")
+    | _, _, _, _, _ => ((), "bad-op")
+  | ["oneshot", fid, enc, so, hx] =>
+    match fidOf fid, boolOf enc, so.toNat?, parseHex hx with
+    | some f, some e, some so, some bs =>
+      match oneShot f e (BitVec.ofNat 32 so) bs with
+      | some (o, n) => ((), s!"{n} {toHex o}")
+      | none => ((), "none")
+    | _, _, _, _ => ((), "bad-op")
+  | "stream" :: fid :: enc :: nx :: so :: hx :: sls =>
+    match fidOf fid, boolOf enc, nextOf nx, so.toNat?, parseHex hx, sls.mapM sliceOf with
+    | some f, some e, some nx, some so, some bs, some sls =>
+      match Coder.init f e nx (BitVec.ofNat 32 so) with
+      | none => ((), s!"init={LZMA_OPTIONS_ERROR}")
+      | some c => ((), "init=0 " ++ runStream simpleCode c bs sls)
+    | _, _, _, _, _, _ => ((), "bad-op")
+  | "delta" :: enc :: dist :: hx :: lens =>
+    match boolOf enc, dist.toNat?, parseHex hx, lens.mapM String.toNat? with
+    | some e, some d, some bs, some lens => Id.run do
+      let mut s := Delta.State.init d
+      let mut rest := bs
+      let mut out := ByteArray.empty
+      for len in lens ++ [bs.length] do
+        let (s', o) := if e then Delta.encode s (rest.take len) else Delta.decode s (rest.take len)
+        s := s'
+        rest := rest.drop len
+        out := pushHex out o
+      return ((), strOfAscii out)
+    | _, _, _, _ => ((), "bad-op")
+  | "dstream" :: enc :: nx :: dist :: hx :: sls =>
+    match boolOf enc, nextOf nx, dist.toNat?, parseHex hx, sls.mapM sliceOf with
+    | some e, some nx, some d, some bs, some sls =>
+      if !Delta.distValid d then ((), s!"init={LZMA_OPTIONS_ERROR}")
+      else ((), "init=0 " ++ runStream (deltaCode e nx) (Delta.State.init d) bs sls)
+    | _, _, _, _, _ => ((), "bad-op")
+  | ["deltax", enc, dist, hx] =>
+    match boolOf enc, dist.toNat?, parseHex hx with
+    | some e, some d, some bs => Id.run do
+      let mut s := Delta.State.init d
+      let mut rest := bs
+      let mut out := ByteArray.empty
+      for _ in [0:bs.length / 4096 + 1] do
+        let (s', o) := if e then Delta.encode s (rest.take 4096) else Delta.decode s (rest.take 4096)
+        s := s'
+        rest := rest.drop 4096
+        out := pushHex out o
+      return ((), strOfAscii out)
+    | _, _, _ => ((), "bad-op")
+  | _ => ((), "bad-op")
+
+def main : IO Unit := runLoop step ()
